@@ -382,8 +382,6 @@ Proof.
 Qed.
 
 (* ------------------------------------------------------------ round trips *)
-Definition wf_uparams (asn : N) (nh : list N) (a : adv) : Prop :=
-  asn < 4294967296 /\ wf_ip4 nh /\ wf_adv a.
 
 Lemma wfb_nil : wfb []. Proof. constructor. Qed.
 Lemma wfb_cons x l : x < 256 -> wfb l -> wfb (x :: l). Proof. constructor; assumption. Qed.
@@ -480,8 +478,6 @@ Proof.
   intros [= <-]. pose proof (wfb_enc_prefix _ Hp). wfb_tac.
 Qed.
 
-(* the two length octets of the header *)
-Definition hdr_len (bs : list N) : N := nth 16 bs 0 * 256 + nth 17 bs 0.
 
 Lemma hdr_len_ser w4 m : len (ser_msg w4 m) <= 4096 -> hdr_len (ser_msg w4 m) = len (ser_msg w4 m).
 Proof.
